@@ -1,7 +1,7 @@
 """C16 - a Getter returns one record per Sid its Finder finds, in the same order"""
 from ..rules import exc, data, forward, search, memo
 
-DECIDES = ("one unconditional yield of get_data(found Sid) per Sid of the Finder, in its order; GetFromAll passes every record through (R-YIELD1); attributes / sid_encode forwarded unchanged down the chains (R-FWD); the Getter's finder and data path use its own configuration (R-FWD); 'sid' set iff the encoder's result is truthy, projection has exactly the requested keys, fresh record per call (R-GETDATA, R-MUTDEFAULT); GetFromAll groups by Getter instance, one instance per table entry (R-GROUPFINDER, R-FINDERID); types without Getter are skipped without raising (R-EXC on the dispatch). Also: the read path keeps no state between calls (R-NOSTATE).")
+DECIDES = ("one unconditional yield of get_data(found Sid) per Sid of the Finder, in its order; GetFromAll passes every record through (R-YIELD1); attributes / sid_encode forwarded unchanged down the chains (R-FWD); the Getter's finder and data path use its own configuration (R-FWD); 'sid' set iff the encoder's result is truthy, projection has exactly the requested keys, fresh record per call (R-GETDATA, R-MUTDEFAULT); GetFromAll groups by Getter instance, one instance per table entry (R-GROUPFINDER, R-FINDERID); types without Getter are skipped without raising (R-EXC on the dispatch). Also: the read path keeps no state between calls (R-NOSTATE); get_one is the first record of get() whenever there is one, GetFromAll.get_data / get_attr ask the configured Getter exactly when there is one (R-FIRSTREC).")
 DOES_NOT_DECIDE = 'record contents'
 
 
@@ -18,4 +18,5 @@ def rules(ctx, tier):
         lambda: search.rule_unfoldall(ctx),
         lambda: memo.rule_nostate(ctx),
         lambda: search.rule_nonerow(ctx),
+        lambda: data.rule_firstrec(ctx),
     ]
